@@ -353,9 +353,24 @@ def run_case(case):
                     out = src.t.join(oth.t, discard_overlapping_frames=True) if discard else src.t.join(oth.t)
                 elif how == "plus":
                     out = src.t + oth.t
+                elif (r // 6) % 3 == 1 and not discard:
+                    # pieces built directly from arrays, without time=: each counts its own frames 0, 1, 2, ... and the joined
+                    # trajectory carries those times one after the other (as a.join(b) does)
+                    tag = "join-mdjoin-fresh-pieces"
+                    fresh, models = [], []
+                    for p_ in (src, oth, src):
+                        kw_ = {} if p_.L is None else {"unitcell_lengths": p_.L.copy(), "unitcell_angles": p_.A.copy()}
+                        fresh.append(md.Trajectory(p_.xyz.copy(), p_.t.topology, **kw_))
+                        m_ = _copy.copy(p_)
+                        m_.time = np.arange(len(p_.xyz), dtype=p_.time.dtype)
+                        models.append(m_)
+                    out = md.join(fresh)
+                    src_models = models
                 else:
                     out = md.join([src.t, oth.t, src.t], discard_overlapping_frames=True) if discard else md.join([src.t, oth.t, src.t])
                 parts = [src, oth] + ([src] if how == "mdjoin" else [])
+                if tag == "join-mdjoin-fresh-pieces":
+                    parts = src_models
                 if discard:
                     # documented rule: the last frame of a piece is dropped when every coordinate of it lies within 2e-3 nm of
                     # the first frame of the next piece
